@@ -1,4 +1,5 @@
 import RagcModel.Lemmas.ReaderState
+import RagcModel.Lemmas.ReaderLink
 /-!
 C08 — reader answers do not depend on query history or on other readers.
 
@@ -13,6 +14,13 @@ all samples, 50 per batch; observed by the harness on every generated archive).
 `Inv A st` (Lemmas/ReaderState.lean) is the handle invariant: the contig metadata is untouched or
 exactly the archive's table, and the cache holds only LZ groups with the reference the archive
 yields for them.
+
+The last section (`archOf_wf`, `written_archive_content`, `reader_answers_input`,
+`reader_answers_input_bytes`, `handle_loader_is_decoder`) instantiates `A` with the content of a file
+that `create` wrote — `ReaderLink.archOf cfg inp dec`, which `written_archive_content` proves to be
+the `Arch` the independent decoder's stages build from the bytes of `Writer.writeArchive` — and
+concludes that every query after every history returns the INPUT's data (`Lemmas/ReaderLink.lean`
+has the development and the list of what is not covered).
 
 `stepOld` is the code before the two repairs (a501c7c, b8c4c45); the negation theorems at the end
 show that both old behaviours violate the property, on every archive of the stated shape and on a
@@ -286,5 +294,182 @@ example : (runOld Demo.arch (fresh Demo.arch) [.referenceSegment 16, .getContig 
     [.err, .ok (.bases [0, 1, 2, 3, 0, 0, 0]), .ok (.bases [0, 1, 2, 3, 0])] := by decide
 example : (run Demo.arch (fresh Demo.arch) [.referenceSegment 16, .getContig [65] [120], .referenceSegment 16]).2 =
     [.ok (.bases [0, 1, 2, 3, 0]), .ok (.bases [0, 1, 2, 3, 0, 0, 0]), .ok (.bases [0, 1, 2, 3, 0])] := by decide
+
+/-! ## Archives that `create` wrote: after any history, every query returns the input's data
+
+`ReaderLink.archOf cfg inp dec` is the abstract content of the file `Writer.writeArchive cfg inp dec zc`
+(defined from the writer's plan; no ZSTD). The theorems below connect the theorems above (answers are
+a function of the abstract archive) with `Props.C01.read_write` (the written bytes carry the input). -/
+
+section Written
+open Ragc.ReaderLink
+
+/-- **C08's well-formedness holds for every archive the reference writer produces** (all
+well-formed decisions): the metadata batches hold one contig table per sample name. -/
+theorem archOf_wf (cfg : Writer.Cfg) (inp : List Writer.Sample) (dec : Writer.Decisions)
+    (h : Writer.DecisionsOK cfg inp dec) : WF (archOf cfg inp dec) :=
+  Ragc.ReaderLink.archOf_wf cfg inp dec h
+
+example : WF (archOf Ex.cfg Ex.inp Ex.dec) := archOf_wf _ _ _ Ex.hyps.1
+-- two samples in one batch; the tables are the writer's descriptors (ids from the `Packs` machine)
+example : (archOf Ex.cfg Ex.inp Ex.dec).samples = [[65], [66]] ∧
+    ((archOf Ex.cfg Ex.inp Ex.dec).batches.map fun b => b.map fun cs => cs.map Contig.name)
+      = [[[[99], [100]], [[99]]]] := by decide
+
+/-- **The abstract content of the written file is `archOf`** (direction: bytes → independent decoder
+→ `Arch`). Under the hypotheses of `Props.C01.read_write` — ALL well-formed decisions, inputs over
+the literal codes, any ZSTD with the two C12 facts — for `bs = writeArchive cfg inp dec zc` the
+decoder's stages `openArchive`, `readParams`, `decodeCatalogue`, `decodeGroups` succeed with the
+violation accumulator unchanged, return `cfg.k`, `cfg.minMatch` and the input's sample names, and the
+bridge `archOfDecoded` applied to their results IS `archOf cfg inp dec` — same batches, same `ref`,
+`delta`, `raw` on every argument. -/
+theorem written_archive_content (cfg : Writer.Cfg) (inp : List Writer.Sample) (dec : Writer.Decisions)
+    (zc : Nat → List Nat → List Nat) (zd : List Nat → Option (List Nat)) (bs : List Nat)
+    (hdec : Writer.DecisionsOK cfg inp dec) (hz : ∀ l x, zd (zc l x) = some x)
+    (hne : ∀ l x, zc l x = [] → x = []) (hcodes : Writer.codesOK inp)
+    (hw : Writer.writeArchive cfg inp dec zc = some bs) (a : Agc3.Acc) :
+    ∃ o tables nB gds, Agc3.openArchive bs = .ok o ∧
+      Agc3.readParams o a = .ok (a, cfg.k, cfg.minMatch, cfg.segSize) ∧
+      Agc3.decodeCatalogue zd o cfg.k cfg.segSize a = .ok (a, inp.map (·.name), tables, nB) ∧
+      Agc3.decodeGroups zd o a = .ok (a, gds) ∧
+      archOfDecoded cfg.k cfg.minMatch (inp.map (·.name)) tables gds = archOf cfg inp dec :=
+  written_arch cfg inp dec zc zd bs hdec hz hne hcodes hw a
+
+/-- On the `Arch` built from ANY decoded tables, the handle's segment loader (empty cache) is the
+independent decoder's `getSegment`, for every descriptor: `ok` with the same bytes, or `err`. -/
+theorem handle_loader_is_decoder (k mm : Nat) (names : List Name) (tables : Array Agc3.ContigTable)
+    (gds : Array Agc3.GroupD) (d : Seg) :
+    segPure (archOfDecoded k mm names tables gds) d = toRes (Agc3.getSegment mm gds d) :=
+  segPure_decoded k mm names tables gds d
+
+example : segPure (archOfDecoded 3 5 [] #[] #[⟨16, some [0, 1, 2], #[], 1, none, []⟩]) ⟨16, 0, true, 3⟩
+    = .ok [0, 1, 2] ∧
+    segPure (archOfDecoded 3 5 [] #[] #[⟨16, some [0, 1, 2], #[], 1, none, []⟩]) ⟨17, 0, true, 3⟩ = .err := by
+  rw [handle_loader_is_decoder, handle_loader_is_decoder]; decide
+
+/-- **Any query after any history on an archive that `create` wrote returns the input's data.**
+For every configuration, input and decision vector accepted by `DecisionsOK` (so `k ≥ 1`), inputs
+over the literal codes, a writer that answers (`writeArchive … = some bs`), sample names pairwise
+distinct and contig names distinct inside each sample (`NamesDistinct`, decidable): on the handle
+model over `archOf cfg inp dec`, after ANY sequence `ops` of operations (successful or failed, known
+or unknown names, any interleaving with range / reference / full-table queries),
+
+* `list_samples` = the input's sample names in order;
+* for every sample of the input: `list_contigs` = its contig names in order; `get_sample` = all its
+  contigs (name, bases) in order; `get_contig` of each of its contigs = `ok` of exactly that contig's
+  bases; `get_contig` with a name the sample does not have = `err`;
+* for a sample name the input does not have: `list_contigs`, `get_sample`, `get_contig` = `err`.
+
+Never a panic. Composition of `answer_canonical` / `inv_run` (history independence) with
+`ReaderLink.contig_views` (the descriptors of `archOf` load the writer's pieces: C02
+`planGroup_spec`, C09) and `views_of_tiles` (C07 `reconstruct_eq_full`, C10 tiling). -/
+theorem reader_answers_input (cfg : Writer.Cfg) (inp : List Writer.Sample) (dec : Writer.Decisions)
+    (zc : Nat → List Nat → List Nat) (bs : List Nat)
+    (hdec : Writer.DecisionsOK cfg inp dec) (hcodes : Writer.codesOK inp)
+    (hw : Writer.writeArchive cfg inp dec zc = some bs) (hnd : NamesDistinct inp) (ops : List Op) :
+    (step (archOf cfg inp dec) (run (archOf cfg inp dec) (fresh (archOf cfg inp dec)) ops).1 .listSamples).2
+      = .ok (.names (inp.map (·.name))) ∧
+    (∀ smp ∈ inp,
+      (step (archOf cfg inp dec) (run (archOf cfg inp dec) (fresh (archOf cfg inp dec)) ops).1
+          (.listContigs smp.name)).2 = .ok (.names (smp.contigs.map (·.name))) ∧
+      (step (archOf cfg inp dec) (run (archOf cfg inp dec) (fresh (archOf cfg inp dec)) ops).1
+          (.getSample smp.name)).2 = .ok (.sample (smp.contigs.map fun c => (c.name, c.data))) ∧
+      (∀ ctg ∈ smp.contigs,
+        (step (archOf cfg inp dec) (run (archOf cfg inp dec) (fresh (archOf cfg inp dec)) ops).1
+          (.getContig smp.name ctg.name)).2 = .ok (.bases ctg.data)) ∧
+      (∀ c, c ∉ smp.contigs.map (·.name) →
+        (step (archOf cfg inp dec) (run (archOf cfg inp dec) (fresh (archOf cfg inp dec)) ops).1
+          (.getContig smp.name c)).2 = .err)) ∧
+    (∀ s, s ∉ inp.map (·.name) →
+      (step (archOf cfg inp dec) (run (archOf cfg inp dec) (fresh (archOf cfg inp dec)) ops).1
+          (.listContigs s)).2 = .err ∧
+      (step (archOf cfg inp dec) (run (archOf cfg inp dec) (fresh (archOf cfg inp dec)) ops).1
+          (.getSample s)).2 = .err ∧
+      ∀ c, (step (archOf cfg inp dec) (run (archOf cfg inp dec) (fresh (archOf cfg inp dec)) ops).1
+          (.getContig s c)).2 = .err) := by
+  have hok := Ragc.WriterLemmas.decOK_of cfg inp dec hdec
+  have hpl := planned_of_writeArchive cfg inp dec zc bs hw
+  have hwf := archOf_wf cfg inp dec hdec
+  have hinv := inv_run (archOf cfg inp dec) hwf ops _ (inv_fresh _)
+  refine ⟨?_, ?_, ?_⟩
+  · rw [answer_canonical _ hwf _ _ hinv]; rfl
+  · intro smp hs
+    refine ⟨?_, ?_, ?_, ?_⟩
+    · rw [answer_canonical _ hwf _ _ hinv]
+      exact answer_listContigs_written cfg inp dec hok hnd smp hs
+    · rw [answer_canonical _ hwf _ _ hinv]
+      exact answer_getSample_written cfg inp dec hok hcodes hpl hnd smp hs
+    · intro ctg hc
+      rw [answer_canonical _ hwf _ _ hinv]
+      exact answer_getContig_written cfg inp dec hok hcodes hpl hnd smp hs ctg hc
+    · intro c hc
+      exact unknown_is_error _ hwf _ _ hinv
+        (Or.inr (unknownContig_written cfg inp dec hok hnd smp hs c hc)) (by simp [EarlyRange])
+  · intro s hs
+    have hu : s ∉ (archOf cfg inp dec).samples := hs
+    refine ⟨?_, ?_, ?_⟩
+    · exact unknown_is_error _ hwf _ (.listContigs s) hinv (Or.inl hu) (by simp [EarlyRange])
+    · exact unknown_is_error _ hwf _ (.getSample s) hinv (Or.inl hu) (by simp [EarlyRange])
+    · intro c
+      exact unknown_is_error _ hwf _ (.getContig s c) hinv (Or.inl hu) (by simp [EarlyRange])
+
+-- Non-vacuity on the input of `read_write`'s example: the hypotheses hold (`Ex.hyps`, by `decide`),
+-- the writer answers (closed evaluation of the executable model by `decide +kernel`, as in
+-- `Props.C01`: not a step of any theorem), and after the history `Ex.hist` the answers are the input's.
+set_option maxRecDepth 100000 in
+example :
+    let A := archOf Ex.cfg Ex.inp Ex.dec
+    let st := (run A (fresh A) Ex.hist).1
+    (step A st .listSamples).2 = .ok (.names [[65], [66]]) ∧
+    (step A st (.listContigs [65])).2 = .ok (.names [[99], [100]]) ∧
+    (step A st (.getContig [66] [99])).2 = .ok (.bases [0, 1, 2, 2, 0, 1, 2, 3, 0, 1]) ∧
+    (step A st (.getSample [65])).2
+      = .ok (.sample [([99], [0, 1, 2, 3, 0, 1, 2, 3, 0, 1]), ([100], [2, 4, 1])]) ∧
+    (step A st (.getContig [65] [120])).2 = .err ∧ (step A st (.getSample [90])).2 = .err := by
+  have hsome : (Writer.writeArchive Ex.cfg Ex.inp Ex.dec Ex.zc).isSome = true := by decide +kernel
+  obtain ⟨bs, hbs⟩ := Option.isSome_iff_exists.mp hsome
+  obtain ⟨h1, h2, h3⟩ := reader_answers_input Ex.cfg Ex.inp Ex.dec Ex.zc bs Ex.hyps.1 Ex.hyps.2.1 hbs
+    Ex.hyps.2.2.1 Ex.hist
+  obtain ⟨a1, a2, a3, a4⟩ := h2 ⟨[65], [⟨[99], [0, 1, 2, 3, 0, 1, 2, 3, 0, 1]⟩, ⟨[100], [2, 4, 1]⟩]⟩ (by decide)
+  obtain ⟨_, _, b3, _⟩ := h2 ⟨[66], [⟨[99], [0, 1, 2, 2, 0, 1, 2, 3, 0, 1]⟩]⟩ (by decide)
+  exact ⟨h1, a1, b3 ⟨[99], [0, 1, 2, 2, 0, 1, 2, 3, 0, 1]⟩ (by decide), a2, a4 [120] (by decide),
+    (h3 [90] (by decide)).2.1⟩
+
+/-- **The same for the `Arch` read from the bytes.** Under the hypotheses of `read_write` (ZSTD facts
+included) and `NamesDistinct`: for `bs = writeArchive cfg inp dec zc` the decoder's stages return
+tables `tables`, `gds` such that on the handle model over `archOfDecoded cfg.k cfg.minMatch names
+tables gds` — the content of the FILE — every query after every history answers as
+`reader_answers_input` says (stated for `get_contig` and `get_sample`; the other clauses transfer the
+same way since the two `Arch` values are equal). -/
+theorem reader_answers_input_bytes (cfg : Writer.Cfg) (inp : List Writer.Sample) (dec : Writer.Decisions)
+    (zc : Nat → List Nat → List Nat) (zd : List Nat → Option (List Nat)) (bs : List Nat)
+    (hdec : Writer.DecisionsOK cfg inp dec) (hz : ∀ l x, zd (zc l x) = some x)
+    (hne : ∀ l x, zc l x = [] → x = []) (hcodes : Writer.codesOK inp)
+    (hw : Writer.writeArchive cfg inp dec zc = some bs) (hnd : NamesDistinct inp) :
+    ∃ o tables nB gds, Agc3.openArchive bs = .ok o ∧
+      Agc3.decodeCatalogue zd o cfg.k cfg.segSize {} = .ok ({}, inp.map (·.name), tables, nB) ∧
+      Agc3.decodeGroups zd o {} = .ok ({}, gds) ∧
+      ∀ (ops : List Op), ∀ smp ∈ inp,
+        (step (archOfDecoded cfg.k cfg.minMatch (inp.map (·.name)) tables gds)
+          (run (archOfDecoded cfg.k cfg.minMatch (inp.map (·.name)) tables gds)
+            (fresh (archOfDecoded cfg.k cfg.minMatch (inp.map (·.name)) tables gds)) ops).1
+          (.getSample smp.name)).2 = .ok (.sample (smp.contigs.map fun c => (c.name, c.data))) ∧
+        ∀ ctg ∈ smp.contigs,
+          (step (archOfDecoded cfg.k cfg.minMatch (inp.map (·.name)) tables gds)
+            (run (archOfDecoded cfg.k cfg.minMatch (inp.map (·.name)) tables gds)
+              (fresh (archOfDecoded cfg.k cfg.minMatch (inp.map (·.name)) tables gds)) ops).1
+            (.getContig smp.name ctg.name)).2 = .ok (.bases ctg.data) := by
+  obtain ⟨o, tables, nB, gds, h1, _, h3, h4, h5⟩ := written_arch cfg inp dec zc zd bs hdec hz hne hcodes hw {}
+  refine ⟨o, tables, nB, gds, h1, h3, h4, ?_⟩
+  rw [h5]
+  intro ops smp hs
+  obtain ⟨_, h, _⟩ := reader_answers_input cfg inp dec zc bs hdec hcodes hw hnd ops
+  exact ⟨(h smp hs).2.1, (h smp hs).2.2.1⟩
+
+example : (∀ l x, Ex.zd (Ex.zc l x) = some x) ∧ (∀ l x, Ex.zc l x = [] → x = []) ∧
+    Writer.DecisionsOK Ex.cfg Ex.inp Ex.dec ∧ Writer.codesOK Ex.inp ∧ NamesDistinct Ex.inp :=
+  ⟨Ex.hyps.2.2.2.1, Ex.hyps.2.2.2.2, Ex.hyps.1, Ex.hyps.2.1, Ex.hyps.2.2.1⟩
+
+end Written
 
 end Ragc.Props.C08
